@@ -34,7 +34,8 @@ def mc_plans(pid, th):
 def nontrivial(pid, ex):
     if pid == "C18":
         return any(r.get("ev") in ("down", "dead") for r in ex)
-    return any(r.get("ev") == "sync" and len(r.get("set", [])) > 0 for r in ex) or any(len(r.get("cmds", [])) > 0 for r in ex)
+    return any(r.get("ev") == "sync" and len(r.get("set", [])) > 0 for r in ex) or any(len(r.get("cmds", [])) > 0 for r in ex) \
+        or any(r.get("ev") == "dlv" and any(len(u) > 0 for u in r.get("upd", [])) for r in ex)
 
 
 def run(pid, tier, replay=None):
@@ -88,6 +89,31 @@ def run(pid, tier, replay=None):
             accepted += r["accepted_execs"]
             events += r["events"]
             viols += r["violations"]
+    # ---- the notification layer under the prefix log: State Vector Sync (spec/sync/SvSync.tla)
+    if pid == "C19" and not replay:
+        V.copy_spec("sync", wd)
+        SV_MC = "SPECIFICATION %s\nCONSTANTS Nodes = {%s} MaxSeq = %d MaxNet = %d\n%sINVARIANTS NoPhantom UpdatesExact\nPROPERTIES Monotone %s\nCHECK_DEADLOCK FALSE\n"
+        plans = [("svs-live2", SV_MC % ("FairSpec", "1, 2", 1, 99, "", "EventuallyConsistent"), 2, 600),
+                 ("svs-safe2", SV_MC % ("Spec", "1, 2", 2, 99, "", ""), 6, 900)]
+        if th:
+            plans.append(("svs-safe3", SV_MC % ("Spec", "1, 2, 3", 1, 4, "CONSTRAINT NetBound\n", ""), 8, 2400))
+        for (tag, cfgtext, workers, tmo) in plans:
+            with open(os.path.join(wd, "mc_%s.cfg" % tag), "w") as f:
+                f.write(cfgtext)
+            mc[tag] = V.tlc(wd, "SvSyncMC.tla", "mc_%s.cfg" % tag, workers=workers, timeout=tmo)
+        V.run_harness(binary, "TestSvsGen", {"VERIF_OUT": wd, "VERIF_N": 300 if th else 40, "VERIF_LEN": 60 if th else 40}, timeout=3000)
+        rows = V.read_ndjson(os.path.join(wd, "svs.ndjson"))
+        sv_execs = V.split_executions(rows)
+        execs_all += sv_execs
+        head = 'SPECIFICATION TSpec\nCONSTANTS Nodes = {1, 2, 3} MaxSeq = 99 TraceFile = "@TRACE@"\n'
+        r = V.validate_trace(wd, rows, "SvTrace.tla", head, ["T_C19svs_upd"],
+                             invariants=["I_C19svs_vec", "I_C19svs_send", "I_C19svs_pub", "I_C19svs_periodic", "I_C19svs_probe", "I_C19svs_settle", "I_C19svs_exact"],
+                             label="svs", timeout=3000)
+        if r["blocked"]:
+            raise V.Machinery("SVS trace not followable (drift): %s" % json.dumps(r["blocked"])[:1500])
+        accepted += r["accepted_execs"]
+        events += r["events"]
+        viols += r["violations"]
     if bg:
         bg.join()
     unfinished = []
@@ -108,14 +134,16 @@ def run(pid, tier, replay=None):
         "distinct_nontrivial": sum(1 for (_, ex) in execs_all if nontrivial(pid, ex)),
         "rule": "N real dv.Routers (N in %s) on dummy engines in one synctest bubble; every connected labelled graph for N<=4 (cycled) and random connected graphs above; "
                 "seeded schedules of fetch / link down (dead-neighbour detection) / link up / fair rounds to quiescence / announce / withdraw / prefix-log sync "
-                "(incl. 130-operation bursts crossing the snapshot threshold); validated by TLC against DVTrace with %s; non-trivial = %s"
+                "(incl. 130-operation bursts crossing the snapshot threshold); validated by TLC against DVTrace with %s; for C19 also 2..3 real SvSync instances "
+                "(publish / deliver any Sync Interest ever sent to anybody / time steps 20 ms..34 s / two suppression probes / lossless settle rounds) validated against SvTrace; non-trivial = %s"
                 % ([n for n, _ in traces], " ".join(INVS[pid]), "execution contains a link failure" if pid == "C18" else "execution installs routes or reconstructs a non-empty prefix set"),
         "samples": [ex[:5] for (_, ex) in execs_all[:2]],
         "model_checking": {k: {"status": x.status, "distinct": x.distinct, "generated": x.generated, "depth": x.depth, "wall_s": round(x.wall, 1)} for k, x in mc.items()},
         "unfinished_model_runs": unfinished,
         "checker_cmd": "tlc DVMC.tla (safety per topology; liveness Converges on all graphs with N<=3) ; tlc -workers 1 DVTrace.tla", "exhaustive": False},
         time.time() - t0, violations=len(viols),
-        assumptions=["TLC, JVM, Go runtime, testing/synctest trusted", "advertisements are handed over synchronously by the harness (through the real TLV encoder/decoder); SVS sync transport is not exercised",
+        assumptions=["TLC, JVM, Go runtime, testing/synctest trusted", "advertisements are handed over synchronously by the harness (through the real TLV encoder/decoder); the routers' own SvSync instances are not wired to each other, "
+                     "SvSync is bound separately (C19 stage svs: real SvSync instances, the harness as lossy, duplicating, reordering network)",
                      "model router ids are ordered by router-name hash (the code's tie-break)", "infinity 16 in traces; scaled infinity in exhaustive runs"])
     if rc == 0:
         shutil.rmtree(wd, ignore_errors=True)
